@@ -57,6 +57,7 @@ type c06Call struct {
 	reply    *hsms.DataMessage
 	err      error
 	canceled bool
+	deadline bool // the caller's context carried a deadline shorter than T3
 	secs2API bool
 }
 
@@ -280,10 +281,17 @@ func c06One(env *fw.Env, i int64) {
 				c := &c06Call{token: fmt.Sprintf("c06-%d-%d-%d", i, s, k), secs2API: rr.IntN(2) == 0}
 				c.beh = behOf(c.token)
 				ctx, cancel := context.WithCancel(context.Background())
-				if rr.IntN(7) == 0 {
+				switch rr.IntN(14) {
+				case 0, 1:
 					c.canceled = true
 					d := time.Duration(rr.IntN(3000)) * time.Microsecond
 					time.AfterFunc(d, cancel)
+				case 2, 3:
+					// the caller's own DEADLINE, shorter than T3: when it lapses first the outcome is the caller's
+					// context error, not the protocol timeout (T3 is still running)
+					cancel()
+					c.deadline = true
+					ctx, cancel = context.WithTimeout(context.Background(), min(t3/4, 300*time.Millisecond))
 				}
 				item := secs2.A(c.token)
 				c.start = peer.Now()
@@ -465,6 +473,11 @@ func c06One(env *fw.Env, i int64) {
 				env.Violate("conn-closed-without-drop", desc+" returned ErrConnClosed but the link was never dropped", cs)
 			}
 			env.Event("conn_closed", 1)
+		case errors.Is(c.err, context.DeadlineExceeded):
+			if !c.deadline {
+				env.Violate("ctx-error-without-cancel", desc+" returned context.DeadlineExceeded but its context had no deadline", cs)
+			}
+			env.Event("ctx_deadline", 1)
 		case errors.Is(c.err, context.Canceled):
 			if !c.canceled {
 				env.Violate("ctx-error-without-cancel", desc+" returned context.Canceled but its context was never cancelled", cs)
